@@ -1064,7 +1064,12 @@ impl FunctionCompiler<'_> {
 
                 self.compile_and_cast(inner_expr, cast_to)
             }
-            hir::Expr::Ref { expr, .. } => {
+            hir::Expr::Ref { mut expr, .. } => {
+                // `^mut (x)` is a reference to `x`, the type checker looks through the parentheses too
+                while let hir::Expr::Paren(Some(inner)) = self.world_bodies[self.loc.file()][expr] {
+                    expr = inner;
+                }
+
                 if self.tys[self.loc][expr].is_aggregate()
                     || matches!(
                         self.world_bodies[self.loc.file()][expr],
